@@ -94,6 +94,38 @@ func (a *VSA) exitFor(call *ssa.Call, t tuple) (*VSA, *ssa.Return) {
 	return sm.sub, hit
 }
 
+// ResultFor resolves a value that is a result of a call of a multi-exit
+// repository helper, for one tuple: the builder of the helper (parameters bound
+// to the arguments) and the result value of the single helper exit the tuple
+// reaches. ok is false when v is not such a value or the exit is not unique.
+func (a *VSA) ResultFor(v ssa.Value, t []int64) (*Builder, ssa.Value, *ssa.Return, bool) {
+	var call *ssa.Call
+	k := 0
+	switch x := v.(type) {
+	case *ssa.Extract:
+		call, _ = x.Tuple.(*ssa.Call)
+		k = x.Index
+	case *ssa.Call:
+		call = x
+	case *ssa.MakeInterface:
+		return a.ResultFor(x.X, t)
+	case *ssa.ChangeInterface:
+		return a.ResultFor(x.X, t)
+	}
+	if call == nil {
+		return nil, nil, nil, false
+	}
+	sub, ret := a.exitFor(call, t)
+	if ret == nil || k >= len(ret.Results) {
+		return nil, nil, nil, false
+	}
+	// the helper may itself hand on another helper's result
+	if b2, v2, r2, ok := sub.ResultFor(ret.Results[k], t); ok {
+		return b2, v2, r2, true
+	}
+	return sub.B, ret.Results[k], ret, true
+}
+
 // nilness evaluates whether the pointer/interface value v is nil for tuple t.
 func (a *VSA) nilness(v ssa.Value, t tuple, depth int) (isNil, ok bool) {
 	if depth > 30 {
@@ -120,6 +152,9 @@ func (a *VSA) nilness(v ssa.Value, t tuple, depth int) (isNil, ok bool) {
 			}
 		}
 	case *ssa.Call:
+		if c := x.Call.StaticCallee(); c != nil && (c.String() == "fmt.Errorf" || c.String() == "errors.New") {
+			return false, true
+		}
 		if sub, ret := a.exitFor(x, t); ret != nil && len(ret.Results) == 1 {
 			return sub.nilness(ret.Results[0], t, depth+1)
 		}
